@@ -9,7 +9,7 @@ plus the snapshot-based aliasing observation (an operation mutating its operand)
 import math
 from fractions import Fraction
 
-from ..common import cnat, cz, cq, cbool, clist, copt, coq_eval
+from ..common import cnat, cz, cq, cbool, clist, copt, coq_eval, safe_coq_eval
 from ..impl import Impl
 
 IMPORTS = ['Base.Util', 'Base.QMat', 'Model.Operators']
@@ -490,7 +490,9 @@ def run_operators(ctx, impl, rng, quick, dmax, depth_max, notes):
         op = cs['op']
         if mv is None:          # the exact-rational evaluation of this case exceeded its budget (counted, not a verdict)
             continue
-        m_dot, m_mat, (m_dense, m_sums) = mv
+        dead = mv is DEAD       # the model no longer evaluates at all (recorded in ctx.proof_broken): no model diff, the
+        #                         first-principles dense oracle and the aliasing snapshots still judge the implementation
+        m_dot, m_mat, (m_dense, m_sums) = mv if not dead else (None, None, (None, None))
         r = impl.call('c15', 'expr', dict(op=op, x=cs['x'], X=cs['X']), timeout=60)
         ctx.traces += 1
         fam = 'op:%s:depth%d' % (op['cls'], cs['depth'])
@@ -526,7 +528,9 @@ def run_operators(ctx, impl, rng, quick, dmax, depth_max, notes):
                               case=case, kind='operand_mutated', broken=a['broken'], cls=op['cls'])
         # ---- correspondence: model vs implementation
         d = out['dot']
-        if m_dot == []:
+        if dead:
+            pass
+        elif m_dot == []:
             if 'err' not in d:
                 ctx.violation('model_vs_impl', 'model: dot raises (shape check); implementation returned', case=case,
                               expected='Err', observed=d, cls=op['cls'], part='dot')
@@ -534,7 +538,7 @@ def run_operators(ctx, impl, rng, quick, dmax, depth_max, notes):
             ctx.violation('model_vs_impl', 'operator.dot(x): implementation differs from the model', case=case,
                           expected=fl(m_dot[0]), observed=d, cls=op['cls'], part='dot')
         stale = False
-        if not stale:
+        if not stale and not dead:
             for part in ('mv2', 'dotm'):
                 o = out[part]
                 if 'err' in o or not mclose(fl(m_mat), o['ok']):
@@ -569,18 +573,26 @@ def run_operators(ctx, impl, rng, quick, dmax, depth_max, notes):
             ctx.violation(site or ('operator:' + op['cls']), what, case=case, expected=out.get('dense_dot'), observed=d,
                           cls=op['cls'], kind=kind)
         # ---- spec check: Coq op_dense vs the worker's first-principles NumPy matrix
-        if cs['with_dense'] and not mclose(fl(m_dense), out['dense']) and not (out['dense_shape'][0] == 0):
+        if not dead and cs['with_dense'] and not mclose(fl(m_dense), out['dense']) and not (out['dense_shape'][0] == 0):
             ctx.violation('spec_vs_numpy', 'the dense matrix of the theorems differs from the NumPy construction (harness/spec)',
                           case=case, expected=fl(m_dense), observed=out['dense'], cls=op['cls'])
         if idx % 150 == 0:
-            ctx.sample(dict(kind='operator', op=cs['op_c'], x=cs['x'], model_dot=fl(m_dot), impl_dot=d, defect_site=site))
+            ctx.sample(dict(kind='operator', op=cs['op_c'], x=cs['x'], model_dot=fl(m_dot) if not dead else None, impl_dot=d, defect_site=site))
+
+
+DEAD = object()      # stands for the model value of a case when the model no longer evaluates at all
 
 
 def safe_eval(ctx, tag, exprs, shard):
-    """coq_eval that isolates the rare case whose exact rationals explode: such a case yields None and is counted"""
+    """coq_eval that isolates the rare case whose exact rationals explode: such a case yields None and is counted.
+    When more than a handful of single evaluations fail the model itself is dead (it no longer compiles, a generated term
+    no longer type-checks): recorded in ctx.proof_broken as common.safe_coq_eval does, and every case gets DEAD so that the
+    implementation-side oracles still run on it."""
     from ..common import CoqEvalError
     out = []
     chunk = shard * 8
+    limit = max(3, len(exprs) // 100)
+    last = ''
     for a in range(0, len(exprs), chunk):
         part = exprs[a:a + chunk]
         try:
@@ -598,11 +610,15 @@ def safe_eval(ctx, tag, exprs, shard):
             for e in piece:
                 try:
                     out.extend(unq(coq_eval(tag, IMPORTS, [e], prelude=PRELUDE, shard=1, timeout=20)))
-                except CoqEvalError:
+                except CoqEvalError as exc:
                     out.append(None)
+                    last = str(exc)
                     ctx.extra['model_budget_exceeded'] = ctx.extra.get('model_budget_exceeded', 0) + 1
-    if ctx.extra.get('model_budget_exceeded', 0) > max(3, len(exprs) // 100):
-        raise CoqEvalError('too many model evaluations exceeded their budget (%d)' % ctx.extra['model_budget_exceeded'])
+                    if ctx.extra['model_budget_exceeded'] > limit:
+                        ctx.proof_broken.append('model evaluation failed (%s): too many model evaluations failed (%d): %s' % (
+                            tag, ctx.extra['model_budget_exceeded'], last.strip()[-400:]))
+                        ctx.extra['model_dead'] = sorted(set(ctx.extra.get('model_dead', [])) | {tag})
+                        return [DEAD] * len(exprs)
     return out
 
 
@@ -633,7 +649,10 @@ def run_utils(ctx, impl, rng, quick, dmax):
     nU = 120 if quick else 900
 
     def coq(tag, exprs):
-        return unq(coq_eval('c15' + tag, IMPORTS, exprs, prelude=PRELUDE, shard=100, timeout=900)) if exprs else []
+        # one value per expression; None for every case when the model no longer evaluates (recorded in ctx.proof_broken):
+        # the part='model' comparisons are then skipped, the part='oracle' / 'aliasing' checks still run
+        vals = safe_coq_eval(ctx, 'c15' + tag, IMPORTS, exprs, prelude=PRELUDE, shard=100, timeout=900) if exprs else []
+        return unq(vals) if vals is not None else [None] * len(exprs)
 
     def check(site, what, ok, case, expected, observed, **kw):
         if not ok:
@@ -664,8 +683,10 @@ def run_utils(ctx, impl, rng, quick, dmax):
             ctx.violation('normalize', 'raises on a valid matrix', case=case, observed=r, p=c_['p'])
             continue
         o = r['ok']
-        check('normalize', 'differs from the model', mclose(fl(mv[0]), o['dense']), case, fl(mv[0]), o['dense'], p=c_['p'], part='model')
-        check('get_norms', 'differs from the model', vclose(fl(mv[1][0]), o['norms']), case, fl(mv[1][0]), o['norms'], p=c_['p'], part='model')
+        if mv is not None:
+            check('normalize', 'differs from the model', mclose(fl(mv[0]), o['dense']), case, fl(mv[0]), o['dense'], p=c_['p'], part='model')
+        if mv is not None:
+            check('get_norms', 'differs from the model', vclose(fl(mv[1][0]), o['norms']), case, fl(mv[1][0]), o['norms'], p=c_['p'], part='model')
         # oracle: every row has norm 1, or was null and stays null; entries = entry / norm
         d = dense_of(c_['m'])
         good = True
@@ -698,7 +719,8 @@ def run_utils(ctx, impl, rng, quick, dmax):
             continue
         d = dense_of(c_['m'])
         spec = [[(sum(d[i]) if i == j else 0) - d[i][j] for j in range(len(d))] for i in range(len(d))]
-        check('get_laplacian', 'differs from the model', mclose(fl(mv), r['ok']['dense']), c_, fl(mv), r['ok']['dense'], part='model')
+        if mv is not None:
+            check('get_laplacian', 'differs from the model', mclose(fl(mv), r['ok']['dense']), c_, fl(mv), r['ok']['dense'], part='model')
         check('get_laplacian', 'differs from D - A', mclose(fl(spec), r['ok']['dense']), c_, fl(spec), r['ok']['dense'], part='oracle')
 
     # ---- get_membership / from_membership (labels with negatives)
@@ -716,18 +738,24 @@ def run_utils(ctx, impl, rng, quick, dmax):
         r = impl.call('c15', 'util', c_)
         ctx.traces += 1
         ctx.count('membership', ('membership', c_), any(l >= 0 for l in c_['labels']))
-        if 'ok' not in r or not mv[0]:
+        if mv is None:
+            if 'ok' not in r:
+                continue       # model dead: whether this call must raise is stated by the model only
+        elif 'ok' not in r or not mv[0]:
             if ('ok' in r) != bool(mv[0]):
                 ctx.violation('get_membership', 'model and implementation disagree on raising', case=c_, expected=mv, observed=r, part='model')
             continue
         o = r['ok']
-        nc, rows = mv[0][0]
-        mcoo = sorted([i, j, float(q)] for i, row in enumerate(rows) for (j, q) in row)
-        check('get_membership', 'differs from the model', [len(rows), nc] == o['shape'] and mcoo == o['coo'], c_, [nc, mcoo], o, part='model')
+        if mv is not None:
+            nc, rows = mv[0][0]
+            mcoo = sorted([i, j, float(q)] for i, row in enumerate(rows) for (j, q) in row)
+        if mv is not None:
+            check('get_membership', 'differs from the model', [len(rows), nc] == o['shape'] and mcoo == o['coo'], c_, [nc, mcoo], o, part='model')
         spec = sorted([i, l, 1.0] for i, l in enumerate(c_['labels']) if l >= 0)
         check('get_membership', 'is not the indicator matrix of the non-negative labels', spec == o['coo'] and o['bool_same'], c_, spec, o, part='oracle')
         back = [l if l >= 0 else -1 for l in c_['labels']]
-        check('from_membership', 'differs from the model', mv[1] == [o['back']], c_, mv[1], o['back'], part='model')
+        if mv is not None:
+            check('from_membership', 'differs from the model', mv[1] == [o['back']], c_, mv[1], o['back'], part='model')
         check('from_membership', 'does not give the labels back (negatives as -1)', back == o['back'], c_, back, o['back'], part='oracle')
     ctx.sample(dict(kind='membership', case=cs[0]))
     cs, ex = [], []
@@ -746,7 +774,8 @@ def run_utils(ctx, impl, rng, quick, dmax):
         ctx.traces += 1
         ctx.count('from_membership', ('from_membership', c_), len(c_['m']['coo']) > 0)
         got = [r['ok']['back']] if 'ok' in r else []
-        check('from_membership', 'differs from the model (labels, or raising on a row with two labels)', got == mv, c_, mv, r, part='model')
+        if mv is not None:
+            check('from_membership', 'differs from the model (labels, or raising on a row with two labels)', got == mv, c_, mv, r, part='model')
 
     # ---- get_neighbors / get_degrees / get_weights
     cs, ex = [], []
@@ -766,9 +795,12 @@ def run_utils(ctx, impl, rng, quick, dmax):
             ctx.violation('get_neighbors', 'raises', case=c_, observed=r)
             continue
         o = r['ok']
-        check('get_neighbors', 'differs from the model', [sorted(x) for x in mv[0]] == o['neighbors'], c_, mv[0], o['neighbors'], part='model')
-        check('get_degrees', 'differs from the model', list(mv[1]) == o['degrees'], c_, mv[1], o['degrees'], part='model')
-        check('get_weights', 'differs from the model', vclose(fl(mv[2][0]), o['weights']), c_, fl(mv[2][0]), o['weights'], part='model')
+        if mv is not None:
+            check('get_neighbors', 'differs from the model', [sorted(x) for x in mv[0]] == o['neighbors'], c_, mv[0], o['neighbors'], part='model')
+        if mv is not None:
+            check('get_degrees', 'differs from the model', list(mv[1]) == o['degrees'], c_, mv[1], o['degrees'], part='model')
+        if mv is not None:
+            check('get_weights', 'differs from the model', vclose(fl(mv[2][0]), o['weights']), c_, fl(mv[2][0]), o['weights'], part='model')
         d = dense_of(c_['m'])
         if c_['transpose']:
             d = [list(col) for col in zip(*d)] if d and d[0] else [[] for _ in range(c_['m']['shape'][1])]
@@ -800,7 +832,8 @@ def run_utils(ctx, impl, rng, quick, dmax):
         d = dense_of(c_['m'])
         n = len(d)
         spec = [[(d[i][j] + d[j][i]) if c_['weighted'] else (1 if max(d[i][j], d[j][i]) > 0 else 0) for j in range(n)] for i in range(n)]
-        check('directed2undirected', 'differs from the model', mclose(fl(mv), o['dense']), c_, fl(mv), o['dense'], weighted=c_['weighted'], part='model')
+        if mv is not None:
+            check('directed2undirected', 'differs from the model', mclose(fl(mv), o['dense']), c_, fl(mv), o['dense'], weighted=c_['weighted'], part='model')
         check('directed2undirected', 'is not A + A^T / max(A, A^T) > 0', mclose(fl(spec), o['dense']), c_, fl(spec), o['dense'], weighted=c_['weighted'], part='oracle')
         check('directed2undirected', 'input matrix modified', o['input_unchanged'], c_, None, None, weighted=c_['weighted'], part='aliasing')
 
@@ -828,7 +861,8 @@ def run_utils(ctx, impl, rng, quick, dmax):
                 if c_['undirected']:
                     spec[r_ + j][i] = d[i][j]
         site = 'bipartite2undirected' if c_['undirected'] else 'bipartite2directed'
-        check(site, 'differs from the model', mclose(fl(mv), r['ok']['dense']), c_, fl(mv), r['ok']['dense'], part='model')
+        if mv is not None:
+            check(site, 'differs from the model', mclose(fl(mv), r['ok']['dense']), c_, fl(mv), r['ok']['dense'], part='model')
         check(site, 'is not the block matrix [[0, B], [B^T or 0, 0]]', mclose(fl(spec), r['ok']['dense']), c_, fl(spec), r['ok']['dense'], part='oracle')
     for _ in range(nU // 2):
         r_, c = rng.randint(1, dmax), rng.randint(1, dmax)
@@ -875,7 +909,8 @@ def run_utils(ctx, impl, rng, quick, dmax):
         nw = c_['m']['shape'][1]
         freq = [sum(1 for i in range(nd) if d[i][j] > 0) for j in range(nw)]
         spec = [[(float(d[i][j]) / float(sum(d[i])) if sum(d[i]) else 0.0) * (math.log(nd / freq[j]) if freq[j] else 0.0) for j in range(nw)] for i in range(nd)]
-        check('get_tfidf', 'differs from the model', mclose(fl(mv), r['ok']['dense']), c_, fl(mv), r['ok']['dense'], part='model')
+        if mv is not None:
+            check('get_tfidf', 'differs from the model', mclose(fl(mv), r['ok']['dense']), c_, fl(mv), r['ok']['dense'], part='model')
         check('get_tfidf', 'is not tf * log(n / df)', mclose(spec, r['ok']['dense']), c_, spec, r['ok']['dense'], part='oracle')
 
     # ---- top_k: k = 1 .. n + 1, both sort values; oracles = the answers NumPy gave, contracts checked
@@ -919,7 +954,7 @@ def run_utils(ctx, impl, rng, quick, dmax):
             if sorted(p) != list(range(n)) or any(neg[p[a]] > neg[p[b]] for a in range(c_['k']) for b in range(c_['k'], n)):
                 ctx.violation('np.argpartition', 'oracle contract violated', case=case, observed=o)
         got = [r['ok']['index']] if 'ok' in r else []
-        if got != [list(x) for x in mv]:
+        if mv is not None and got != [list(x) for x in mv]:
             ctx.violation('model_vs_impl', 'top_k differs from the model', case=case, expected=mv, observed=r, part='top_k')
         # property oracle (the proved characterisation top_k_def, checked on the implementation's output)
         if 'ok' not in r:
